@@ -27,136 +27,91 @@ theorem physTuple_eq (p : List Seg) :
   cases p <;> simp
 
 theorem resourceURL_none (p : List Seg) :
-    resourceURL p none = { physicalPath := pathOf p, virtualPath := pathOf p,
-                           physicalPathTuple := physTuple p, virtualPathTuple := physTuple p } := by
+    resourceURL p none = .ok { physicalPath := pathOf p, virtualPath := pathOf p,
+                               physicalPathTuple := physTuple p, virtualPathTuple := physTuple p } := by
   simp only [resourceURL, physical_eq, physTuple_eq]
 
-theorem resourceURL_some (p : List Seg) (h : Bytes) :
-    resourceURL p (some h) =
-      if rstripSlash (latin1 h) ≠ [] ∧ (rstripSlash (latin1 h) ++ ['/']).isPrefixOf (pathOf p) = true then
-        { physicalPath := pathOf p, virtualPath := (pathOf p).drop (rstripSlash (latin1 h)).length,
-          physicalPathTuple := physTuple p,
-          virtualPathTuple := [] :: (physTuple p).drop (splitOn '/' (rstripSlash (latin1 h))).length }
-      else { physicalPath := pathOf p, virtualPath := pathOf p,
-             physicalPathTuple := physTuple p, virtualPathTuple := physTuple p } := by
-  simp only [resourceURL, physical_eq, physTuple_eq]
+theorem split_no_nil (t : Text) : [] ∉ splitPathInfo t := by
+  intro h
+  rw [splitPathInfo_eq] at h
+  exact (normSegs_clean_out _ [] h).1.1 rfl
 
-/-! ### `rstrip('/')` -/
-
-def EndsNoSlash (t : Text) : Prop := ∃ X c, t = X ++ [c] ∧ c ≠ '/'
-
-theorem endsNoSlash_of_seg (s : Text) (h1 : s ≠ []) (h2 : '/' ∉ s) : EndsNoSlash s := by
-  refine ⟨s.dropLast, s.getLast h1, (List.dropLast_concat_getLast h1).symm, ?_⟩
-  intro e
-  exact h2 (e ▸ List.getLast_mem h1)
-
-theorem endsNoSlash_append (a t : Text) (h : EndsNoSlash t) : EndsNoSlash (a ++ t) := by
-  obtain ⟨X, c, rfl, hc⟩ := h
-  exact ⟨a ++ X, c, by simp, hc⟩
-
-theorem endsNoSlash_joinWith (hs : List Text) (hne : hs ≠ []) (h : ∀ s ∈ hs, s ≠ [] ∧ '/' ∉ s) :
-    EndsNoSlash (joinWith '/' hs) := by
-  induction hs with
-  | nil => exact absurd rfl hne
-  | cons x r ih =>
-    cases r with
-    | nil => simpa [joinWith] using endsNoSlash_of_seg x (h x (by simp)).1 (h x (by simp)).2
-    | cons y r' =>
-      rw [joinWith_cons_cons]
-      have := ih (by simp) (fun s hs => h s (by simp [hs]))
-      have e : x ++ '/' :: joinWith '/' (y :: r') = (x ++ ['/']) ++ joinWith '/' (y :: r') := by simp
-      rw [e]
-      exact endsNoSlash_append _ _ this
-
-theorem dropWhile_replicate_slash (k : Nat) (l : Text) :
-    (List.replicate k '/' ++ l).dropWhile (· = '/') = l.dropWhile (· = '/') := by
-  induction k with
-  | zero => simp
-  | succ k ih => simp [List.replicate_succ, ih]
-
-theorem rstrip_endsNoSlash (t : Text) (k : Nat) (h : EndsNoSlash t) :
-    rstripSlash (t ++ List.replicate k '/') = t := by
-  obtain ⟨X, c, rfl, hc⟩ := h
-  simp only [rstripSlash, List.reverse_append, List.reverse_replicate, List.reverse_cons, List.reverse_nil,
-    List.nil_append, List.singleton_append]
-  rw [dropWhile_replicate_slash]
-  simp [hc]
-
-theorem rstrip_all_slash (k : Nat) : rstripSlash (List.replicate k '/') = [] := by
-  have := dropWhile_replicate_slash k []
-  simp only [List.append_nil, List.dropWhile_nil] at this
-  simp [rstripSlash, this]
-
-/-! ### string prefix of slash-terminated segment texts = whole-segment prefix -/
-
-theorem append_slash_inj (a b r r' : Text) (ha : '/' ∉ a) (hb : '/' ∉ b)
-    (h : a ++ '/' :: r = b ++ '/' :: r') : a = b ∧ r = r' := by
-  induction a generalizing b with
-  | nil =>
-    cases b with
-    | nil => simpa using h
-    | cons d b' =>
-      simp only [List.nil_append, List.cons_append, List.cons.injEq] at h
-      exact absurd (h.1 ▸ (by simp : d ∈ d :: b')) hb
-  | cons c a' ih =>
-    cases b with
-    | nil =>
-      simp only [List.nil_append, List.cons_append, List.cons.injEq] at h
-      exact absurd (h.1 ▸ (by simp : c ∈ c :: a')) ha
-    | cons d b' =>
-      simp only [List.cons_append, List.cons.injEq] at h
-      have := ih b' (fun m => ha (by simp [m])) (fun m => hb (by simp [m])) h.2
-      exact ⟨by rw [h.1, this.1], this.2⟩
-
-theorem slashed_prefix_iff (xs ys : List Text) (hx : ∀ s ∈ xs, '/' ∉ s) (hy : ∀ s ∈ ys, '/' ∉ s) :
-    slashed xs <+: slashed ys ↔ xs <+: ys := by
+/-- comparing `physical_path_tuple[:numels]` (which ends in `''`) with the header's segments is the prefix test -/
+theorem take_snoc_nil_iff (p vt : List Seg) (h : [] ∉ vt) : (p ++ [[]]).take vt.length = vt ↔ vt <+: p := by
   constructor
-  · intro h
-    induction xs generalizing ys with
-    | nil => exact List.nil_prefix
-    | cons x r ih =>
-      obtain ⟨t, ht⟩ := h
-      cases ys with
-      | nil => simp [slashed] at ht
-      | cons y ys' =>
-        rw [slashed_cons, slashed_cons, List.append_assoc, List.cons_append] at ht
-        obtain ⟨e1, e2⟩ := append_slash_inj x y _ _ (hx x (by simp)) (hy y (by simp)) ht
-        subst e1
-        have := ih ys' (fun s hs => hx s (by simp [hs])) (fun s hs => hy s (by simp [hs])) ⟨t, e2⟩
-        exact (List.cons_prefix_cons).mpr ⟨rfl, this⟩
+  · intro e
+    have hp : vt <+: p ++ [[]] := by rw [← e]; exact List.take_prefix _ _
+    rcases List.prefix_concat_iff.mp hp with e' | hp'
+    · exact absurd (by rw [e']; simp) h
+    · exact hp'
   · rintro ⟨r, rfl⟩
-    exact ⟨slashed r, (slashed_append xs r).symm⟩
+    rw [List.append_assoc]
+    exact List.take_left' rfl
 
-theorem mem_map_quote_noSlash (p : List Seg) (s : Text) (h : s ∈ p.map quoteSegment) : '/' ∉ s := by
-  obtain ⟨n, _, rfl⟩ := List.mem_map.mp h
-  exact slash_not_mem_quoteSegment n
+theorem slashed_eq_joinWith (xs : List Text) : slashed xs = joinWith '/' (xs ++ [[]]) := by
+  induction xs with
+  | nil => rfl
+  | cons x r ih =>
+    rw [slashed_cons, ih]
+    cases r <;> simp [joinWith]
 
-/-- The trimming decision and its result, for a header whose stripped text is `/h1/…/hn` (n ≥ 1, slash-free
-segments): the physical path is trimmed iff `h1 … hn` is a whole-segment prefix of the quoted names. -/
-theorem virtualPath_trim (p : List Seg) (hs : List Text) (hdr : Bytes) (hne : hs ≠ [])
-    (hslash : ∀ s ∈ hs, '/' ∉ s) (hv : rstripSlash (latin1 hdr) = '/' :: joinWith '/' hs) :
-    (resourceURL p (some hdr)).virtualPath =
-      if hs.isPrefixOf (p.map quoteSegment) = true then '/' :: slashed ((p.map quoteSegment).drop hs.length)
-      else pathOf p := by
-  rw [resourceURL_some, hv]
-  have e1 : ('/' :: joinWith '/' hs) ++ ['/'] = '/' :: slashed hs := by
-    rw [List.cons_append, joinWith_slash hs hne]
-  have e2 : (('/' :: joinWith '/' hs) ++ ['/']).isPrefixOf (pathOf p) = hs.isPrefixOf (p.map quoteSegment) := by
-    rw [e1, pathOf_eq]
-    rw [Bool.eq_iff_iff, List.isPrefixOf_iff_prefix, List.isPrefixOf_iff_prefix, List.cons_prefix_cons]
-    simp only [true_and]
-    exact slashed_prefix_iff hs _ hslash (mem_map_quote_noSlash p)
-  rw [e2]
-  by_cases hp : hs.isPrefixOf (p.map quoteSegment) = true
-  · simp only [hp, ne_eq, reduceCtorEq, not_false_eq_true, and_self, if_true]
-    obtain ⟨r, hr⟩ := List.isPrefixOf_iff_prefix.mp hp
-    rw [pathOf_eq, ← hr, slashed_append, List.drop_left' rfl]
-    have : '/' :: (slashed hs ++ slashed r) = ('/' :: joinWith '/' hs) ++ '/' :: slashed r := by
-      rw [← joinWith_slash hs hne]; simp
-    rw [this, List.drop_left' rfl]
-  · simp [hp]
+/-- `_join_path_tuple(('',) + rest + ('',))` is the URL path of `rest` -/
+theorem joinPathTuple_vpt (rest : List Seg) : joinPathTuple ([] :: (rest ++ [[]])) = pathOf rest := by
+  rw [joinPathTuple_abs, pathOf_eq, slashed_eq_joinWith]
+  simp [quoteSegment_nil]
 
-/-! ### names that need no quoting -/
+/-- `ResourceURL` under a decodable header: the virtual path is what the property demands for the virtual root
+the traverser reads out of that header. -/
+theorem resourceURL_vroot (p : List Seg) (hdr : Bytes) (v : Text) (hd : decodePathInfo hdr = some v) :
+    ∃ u, resourceURL p (some hdr) = .ok u ∧ u.physicalPath = pathOf p ∧ u.physicalPathTuple = physTuple p ∧
+      u.virtualPath = specVirtualPath p (some (splitPathInfo v)) ∧
+      u.virtualPathTuple = (if splitPathInfo v ≠ [] ∧ inside (splitPathInfo v) p = true
+        then [] :: (p.drop (splitPathInfo v).length ++ [[]]) else physTuple p) := by
+  have hnil := split_no_nil v
+  simp only [resourceURL, physical_eq, physTuple_eq, hd]
+  generalize splitPathInfo v = vt at hnil ⊢
+  by_cases hvt : vt = []
+  · subst hvt
+    refine ⟨_, by simp; rfl, rfl, rfl, ?_, ?_⟩ <;> simp [specVirtualPath, inside]
+  · have hlen : ([] :: vt : List Seg).length > 1 := by
+      have := List.length_pos_iff.mpr hvt
+      simp; omega
+    by_cases hp : p = []
+    · subst hp
+      have hno : ¬ ((physTuple []).take ([] :: vt : List Seg).length = [] :: vt) := by
+        cases vt with
+        | nil => exact absurd rfl hvt
+        | cons x r => simp [physTuple]
+      have hin : inside vt [] = false := by
+        cases vt with
+        | nil => exact absurd rfl hvt
+        | cons x r => simp [inside]
+      refine ⟨_, by rw [if_neg (by intro h; exact hno h.2)], rfl, rfl, ?_, ?_⟩ <;> simp [specVirtualPath, hin]
+    · have hpt : physTuple p = [] :: (p ++ [[]]) := by simp [physTuple, hp]
+      have hiff : ((physTuple p).take ([] :: vt : List Seg).length = [] :: vt) ↔ vt <+: p := by
+        rw [hpt]
+        simp only [List.length_cons, List.take_succ_cons, List.cons.injEq, true_and]
+        exact take_snoc_nil_iff p vt hnil
+      by_cases hin : inside vt p = true
+      · have hpre : vt <+: p := List.isPrefixOf_iff_prefix.mp hin
+        have hc : ([] :: vt : List Seg).length > 1 ∧ (physTuple p).take ([] :: vt : List Seg).length = [] :: vt :=
+          ⟨hlen, hiff.mpr hpre⟩
+        have hdrop : (physTuple p).drop ([] :: vt : List Seg).length = p.drop vt.length ++ [[]] := by
+          rw [hpt]
+          simp only [List.length_cons, List.drop_succ_cons]
+          exact List.drop_append_of_le_length hpre.length_le
+        refine ⟨_, by rw [if_pos hc], rfl, rfl, ?_, ?_⟩
+        · simp only [hdrop, joinPathTuple_vpt, specVirtualPath, hin, if_true]
+        · simp only [hdrop, hvt, hin, ne_eq, not_false_eq_true, and_self, if_true]
+      · have hno : ¬ vt <+: p := fun h => hin (List.isPrefixOf_iff_prefix.mpr h)
+        refine ⟨_, by rw [if_neg (by intro h; exact hno (hiff.mp h.2))], rfl, rfl, ?_, ?_⟩ <;>
+          simp [specVirtualPath, hin]
+
+theorem resourceURL_undecodable (p : List Seg) (hdr : Bytes) (hd : decodePathInfo hdr = none) :
+    resourceURL p (some hdr) = .error .unicodeDecode := by
+  simp only [resourceURL, hd]
+
+/-! ### headers -/
 
 theorem char_ofNat_byte (c : Char) (h : c.toNat < 128) : Char.ofNat (UInt8.ofNat c.toNat).toNat = c := by
   have : (UInt8.ofNat c.toNat).toNat = c.toNat := by simp; omega
@@ -169,31 +124,11 @@ theorem utf8Enc_ascii (t : Text) (h : ∀ c ∈ t, c.toNat < 128) : utf8Enc t = 
     rw [utf8Enc_cons, utf8EncodeChar_ascii c (h c (by simp)), enc_cons, ih (fun d hd => h d (by simp [hd]))]
     rfl
 
-theorem latin1_enc (t : Text) (h : ∀ c ∈ t, c.toNat < 128) : latin1 (enc t) = t := by
-  induction t with
-  | nil => rfl
-  | cons c r ih =>
-    simp only [enc, latin1, List.map_cons, List.map_map] at ih ⊢
-    rw [char_ofNat_byte c (h c (by simp)), ih (fun d hd => h d (by simp [hd]))]
-
-theorem quoteSegment_of_noQuote (s : Seg) (h : NoQuoteNeeded s) : quoteSegment s = s := by
-  have hascii : ∀ c ∈ s, c.toNat < 128 := fun c hc => (h c hc).1
-  rw [quoteSegment, utf8Enc_ascii s hascii]
-  induction s with
-  | nil => simp [enc, quoteBytes]
-  | cons c r ih =>
-    have hk : keptByte (UInt8.ofNat c.toNat) = true := (h c (by simp)).2
-    rw [enc_cons, quoteBytes_cons_kept _ _ hk, char_ofNat_byte c (hascii c (by simp)),
-      ih (fun d hd => h d (by simp [hd])) (fun d hd => hascii d (by simp [hd]))]
-
-theorem map_quote_of_noQuote (vt : List Seg) (h : ∀ n ∈ vt, NoQuoteNeeded n) : vt.map quoteSegment = vt := by
-  induction vt with
-  | nil => rfl
-  | cons x r ih =>
-    simp only [List.map_cons]
-    rw [quoteSegment_of_noQuote x (h x (by simp)), ih (fun n hn => h n (by simp [hn]))]
-
-/-! ### the canonical header -/
+/-- an ASCII header text is read as its normalised segments -/
+theorem headerVroot_ascii (t : Text) (h : ∀ c ∈ t, c.toNat < 128) : headerVroot (enc t) = some (splitPathInfo t) := by
+  simp only [headerVroot, decodePathInfo]
+  rw [← utf8Enc_ascii t h, utf8Dec_utf8Enc]
+  rfl
 
 theorem utf8Enc_replicate_slash (k : Nat) : utf8Enc (List.replicate k '/') = List.replicate k 47 := by
   induction k with
@@ -213,21 +148,6 @@ theorem vrootHeader_eq (vt : List Seg) (k : Nat) : vrootHeader vt k = utf8Enc (h
 
 theorem decode_vrootHeader (vt : List Seg) (k : Nat) : decodePathInfo (vrootHeader vt k) = some (headerText vt k) := by
   rw [vrootHeader_eq]; exact utf8Dec_utf8Enc _
-
-theorem headerText_ascii (vt : List Seg) (k : Nat) (h : ∀ n ∈ vt, NoQuoteNeeded n) :
-    ∀ c ∈ headerText vt k, c.toNat < 128 := by
-  intro c hc
-  simp only [headerText, List.cons_append, List.mem_cons, List.mem_append, List.mem_replicate] at hc
-  rcases hc with e | m | ⟨_, e⟩
-  · subst e; decide
-  · rcases mem_joinWith _ _ _ m with e | ⟨x, hx, hcx⟩
-    · subst e; decide
-    · exact (h x hx c hcx).1
-  · subst e; decide
-
-theorem latin1_vrootHeader (vt : List Seg) (k : Nat) (h : ∀ n ∈ vt, NoQuoteNeeded n) :
-    latin1 (vrootHeader vt k) = headerText vt k := by
-  rw [vrootHeader_eq, utf8Enc_ascii _ (headerText_ascii vt k h), latin1_enc _ (headerText_ascii vt k h)]
 
 /-- the header text followed by a slash is a slash-terminated list of segments whose non-empty ones are the names -/
 theorem headerText_slashed (vt : List Seg) (k : Nat) (hadm : ∀ n ∈ vt, AdmissibleName n) :
@@ -316,6 +236,38 @@ theorem split_header_path (vt rest : List Seg) (k : Nat) (hv : ∀ n ∈ vt, Adm
       filter_ne_nil_of_all rest (fun s hs => (hr s hs).1)]
     simp
 
+/-! ### a header text followed by a generated path -/
+
+theorem noClimb_admissible (d : Nat) (xs tail : List Seg) (h : ∀ n ∈ xs, AdmissibleName n)
+    (ht : noClimbFrom (d + xs.length) tail = true) : noClimbFrom d (xs ++ tail) = true := by
+  induction xs generalizing d with
+  | nil => simpa using ht
+  | cons x r ih =>
+    have hc := (h x (by simp)).clean
+    have h1 : ¬ (x = [] ∨ x = ['.']) := fun e => e.elim hc.1 hc.2.1
+    have h2 : ¬ x = dd := hc.2.2
+    simp only [List.cons_append, noClimbFrom, h1, h2, if_false]
+    apply ih (d + 1) (fun n hn => h n (by simp [hn]))
+    have : d + 1 + r.length = d + (x :: r).length := by simp; omega
+    rw [this]; exact ht
+
+/-- whatever the spelling of the header text `V`: followed by `/a/b/` it splits into the header's segments and
+then `a`, `b` (the generated path has no `..` that could climb into the header) -/
+theorem split_vroot_path (V : Text) (rest : List Seg) (hr : ∀ n ∈ rest, AdmissibleName n) :
+    splitPathInfo (V ++ '/' :: slashed rest) = splitPathInfo V ++ rest := by
+  have hsplit : splitOn '/' (slashed rest) = rest ++ [[]] := by
+    have := splitOn_slashed rest [] (fun s hs => (hr s hs).noSlash)
+    simpa [splitOn] using this
+  rw [splitPathInfo_eq, splitPathInfo_eq, splitOn_append_sep, hsplit,
+    normSegs_append_noClimb _ _ (noClimb_admissible 0 rest [[]] hr (by simp [noClimbFrom]))]
+  congr 1
+  rw [normSegs_filter _ (by
+    intro s hs
+    rcases List.mem_append.mp hs with m | m
+    · exact .inr (hr s m).clean
+    · exact .inl (by simpa using m)), List.filter_append, filter_ne_nil_of_all rest (fun s hs => (hr s hs).1)]
+  simp
+
 /-! ### requesting a generated URL -/
 
 theorem mem_slashed (xs : List Text) (c : Char) (h : c ∈ slashed xs) : c = '/' ∨ ∃ x ∈ xs, c ∈ x := by
@@ -344,118 +296,72 @@ theorem requestBack_slashed (root : Tree) (rest : List Seg) (hdr : Option Bytes)
     rw [this]
   simp only [requestBack, asciiEncode_of_ascii _ hascii, hun]
 
-/-- the traverser under a canonical virtual-root header, asked for `/a/b/` below it -/
-theorem traverser_vroot (root : Tree) (vt rest : List Seg) (k : Nat) (hv : ∀ n ∈ vt, AdmissibleName n)
+/-- the traverser under any decodable virtual-root header designating `vt`, asked for `/a/b/` below it -/
+theorem traverser_vroot (root : Tree) (hdr : Bytes) (vt rest : List Seg) (hv : headerVroot hdr = some vt)
     (hr : ∀ n ∈ rest, AdmissibleName n) (hw : Walkable root (vt ++ rest) = true) :
-    traverser root { pathInfo := some (utf8Enc ('/' :: slashed rest)), vroot := some (vrootHeader vt k), matchdict := none } =
+    traverser root { pathInfo := some (utf8Enc ('/' :: slashed rest)), vroot := some hdr, matchdict := none } =
       .ok (specBack (vt ++ rest) vt) := by
-  obtain ⟨s1, s2⟩ := split_header_path vt rest k hv hr
-  simp only [traverser, requestPath, Option.getD_some, decodePathInfo, utf8Dec_utf8Enc]
-  have hd := decode_vrootHeader vt k
-  simp only [decodePathInfo] at hd
-  have hne : ¬ (headerText vt k ++ '/' :: slashed rest = ['/']) := by
-    simp [headerText]
-  simp only [hd, reduceCtorEq, if_false, traverseText, s1, s2, hne, walk_outcome,
-    deepest_of_walkable root _ hw, specBack]
-  by_cases hvt : vt = []
-  · subst hvt; simp
-  · have : 0 < vt.length := List.length_pos_iff.mpr hvt
-    have e : List.take (vt.length + rest.length) (vt ++ rest) = vt ++ rest :=
-      List.take_of_length_le (by simp)
-    simp [this, e]
-
-theorem map_quote_injective (a b : List Seg) (h : a.map quoteSegment = b.map quoteSegment) : a = b := by
-  induction a generalizing b with
-  | nil => cases b with
-    | nil => rfl
-    | cons y r => simp at h
-  | cons x r ih =>
-    cases b with
-    | nil => simp at h
-    | cons y r' =>
-      simp only [List.map_cons, List.cons.injEq] at h
-      rw [quoteSegment_injective x y h.1, ih r' h.2]
-
-/-- for names that need no quoting, being a prefix of the quoted names is being a prefix of the names -/
-theorem prefix_quote_iff (vt p : List Seg) (h : ∀ n ∈ vt, NoQuoteNeeded n) :
-    vt.isPrefixOf (p.map quoteSegment) = vt.isPrefixOf p := by
-  have hq := map_quote_of_noQuote vt h
-  rw [Bool.eq_iff_iff, List.isPrefixOf_iff_prefix, List.isPrefixOf_iff_prefix]
-  constructor
-  · intro hp
-    have e := List.prefix_iff_eq_take.mp hp
-    rw [← List.map_take] at e
-    have : vt = p.take vt.length := map_quote_injective _ _ (by rw [hq]; exact e)
-    rw [this]
-    exact List.take_prefix _ _
-  · intro hp
-    have := List.IsPrefix.map quoteSegment hp
-    rwa [hq] at this
-
-theorem headerText_rstrip (vt : List Seg) (k : Nat) (hne : vt ≠ []) (hadm : ∀ n ∈ vt, AdmissibleName n) :
-    rstripSlash (headerText vt k) = '/' :: joinWith '/' vt := by
-  have h1 : EndsNoSlash ('/' :: joinWith '/' vt) :=
-    endsNoSlash_append ['/'] _ (endsNoSlash_joinWith vt hne (fun s hs => ⟨(hadm s hs).1, (hadm s hs).noSlash⟩))
-  exact rstrip_endsNoSlash _ k h1
-
-/-- Under a canonical header whose names need no quoting, the virtual path is what the property demands. -/
-theorem virtualPath_canonical (p vt : List Seg) (k : Nat) (hadm : ∀ n ∈ vt, AdmissibleName n)
-    (hnq : ∀ n ∈ vt, NoQuoteNeeded n) :
-    (resourceURL p (some (vrootHeader vt k))).virtualPath = specVirtualPath p (some vt) := by
-  by_cases hvt : vt = []
-  · subst hvt
-    have hl := latin1_vrootHeader [] k hnq
-    have : headerText [] k = List.replicate (k + 1) '/' := by simp [headerText, joinWith, List.replicate_succ]
-    rw [resourceURL_some, hl, this, rstrip_all_slash]
-    simp [specVirtualPath, inside]
-  · have hv : rstripSlash (latin1 (vrootHeader vt k)) = '/' :: joinWith '/' vt := by
-      rw [latin1_vrootHeader vt k hnq]; exact headerText_rstrip vt k hvt hadm
-    rw [virtualPath_trim p vt _ hvt (fun s hs => (hadm s hs).noSlash) hv, prefix_quote_iff vt p hnq]
-    simp only [specVirtualPath, inside]
-    by_cases hp : vt.isPrefixOf p = true
-    · simp only [hp, if_true, pathOf_eq, List.map_drop]
-    · simp [hp]
-
-theorem physicalPath_eq (p : List Seg) (hdr : Option Bytes) : (resourceURL p hdr).physicalPath = pathOf p := by
-  cases hdr with
-  | none => rw [resourceURL_none]
-  | some h => rw [resourceURL_some]; split <;> rfl
-
-/-- `virtual_root()` under a canonical header whose names need no quoting -/
-theorem virtualRoot_canonical (root : Tree) (p vt : List Seg) (k : Nat) (hp : ∀ n ∈ p, AdmissibleName n)
-    (hadm : ∀ n ∈ vt, AdmissibleName n) (hnq : ∀ n ∈ vt, NoQuoteNeeded n) (hw : Walkable root p = true) :
-    virtualRoot root p (some (vrootHeader vt k)) = .ok (if inside vt p = true then vt else []) := by
-  simp only [virtualRoot, physicalPath_eq, virtualPath_canonical p vt k hadm hnq, specVirtualPath]
-  by_cases hin : inside vt p = true
-  · obtain ⟨rest, hr⟩ := List.isPrefixOf_iff_prefix.mp hin
-    have hd : p.drop vt.length = rest := by rw [← hr]; simp
-    simp only [hin, if_true, hd]
+  simp only [headerVroot] at hv
+  cases hd : decodePathInfo hdr with
+  | none => simp [hd] at hv
+  | some V =>
+    have s1 : splitPathInfo V = vt := by simpa [hd] using hv
+    have s2 := split_vroot_path V rest hr
+    rw [s1] at s2
+    simp only [traverser, requestPath, Option.getD_some]
+    have hdd : decodePathInfo (utf8Enc ('/' :: slashed rest)) = some ('/' :: slashed rest) := utf8Dec_utf8Enc _
+    simp only [hdd, hd, reduceCtorEq, if_false, traverseText, vpath_shortcut]
+    simp only [s1, s2, walk_outcome, deepest_of_walkable root _ hw, specBack]
     by_cases hvt : vt = []
-    · subst hvt
-      simp only [List.nil_append] at hr
-      subst hr
-      simp
-    · have hq : (vt.map quoteSegment) ≠ [] := by simpa using hvt
-      have e : pathOf p = ('/' :: joinWith '/' (vt.map quoteSegment)) ++ pathOf rest := by
-        rw [pathOf_eq, pathOf_eq, ← hr, List.map_append, slashed_append, ← joinWith_slash _ hq]
+    · subst hvt; simp
+    · have : 0 < vt.length := List.length_pos_iff.mpr hvt
+      have e : List.take (vt.length + rest.length) (vt ++ rest) = vt ++ rest :=
+        List.take_of_length_le (by simp)
+      simp [this, e]
+
+/-- `virtual_root()` under a decodable header -/
+theorem virtualRoot_vroot (root : Tree) (p vt : List Seg) (hdr : Bytes) (hv : headerVroot hdr = some vt)
+    (hp : ∀ n ∈ p, AdmissibleName n) (hw : Walkable root p = true) :
+    virtualRoot root p (some hdr) = .ok (if inside vt p = true then vt else []) := by
+  simp only [headerVroot] at hv
+  cases hd : decodePathInfo hdr with
+  | none => simp [hd] at hv
+  | some V =>
+    have s1 : splitPathInfo V = vt := by simpa [hd] using hv
+    obtain ⟨u, hu, h1, _, h3, _⟩ := resourceURL_vroot p hdr V hd
+    rw [s1] at h3
+    simp only [virtualRoot, hu, h1, h3, specVirtualPath]
+    by_cases hin : inside vt p = true
+    · obtain ⟨rest, hr⟩ := List.isPrefixOf_iff_prefix.mp hin
+      have hadm : ∀ n ∈ vt, AdmissibleName n := fun n hn => hp n (by rw [← hr]; simp [hn])
+      have hd' : p.drop vt.length = rest := by rw [← hr]; simp
+      simp only [hin, if_true, hd']
+      by_cases hvt : vt = []
+      · subst hvt
+        simp only [List.nil_append] at hr
+        subst hr
         simp
-      have hne : pathOf p ≠ pathOf rest := by
-        intro h
-        have := congrArg List.length h
-        rw [e] at this
-        simp at this
-        omega
-      have hsuf : (pathOf rest).isSuffixOf (pathOf p) = true :=
-        List.isSuffixOf_iff_suffix.mpr ⟨_, e.symm⟩
-      simp only [hne, ne_eq, not_false_eq_true, hsuf, and_self, if_true]
-      have ht : (pathOf p).take ((pathOf p).length - (pathOf rest).length) = '/' :: joinWith '/' (vt.map quoteSegment) := by
-        rw [e]
-        apply List.take_left'
-        simp
-        omega
-      rw [ht, findResource_abs root p vt hadm]
-      have hwv : Walkable root vt = true := walkable_prefix root vt rest (by rw [hr]; exact hw)
-      simp [hwv]
-  · simp [hin]
+      · have hq : (vt.map quoteSegment) ≠ [] := by simpa using hvt
+        have e : pathOf p = ('/' :: joinWith '/' (vt.map quoteSegment)) ++ pathOf rest := by
+          rw [pathOf_eq, pathOf_eq, ← hr, List.map_append, slashed_append, ← joinWith_slash _ hq]
+          simp
+        have hne : pathOf p ≠ pathOf rest := by
+          intro h
+          have := congrArg List.length h
+          rw [e] at this
+          simp at this
+          omega
+        have hsuf : (pathOf rest).isSuffixOf (pathOf p) = true :=
+          List.isSuffixOf_iff_suffix.mpr ⟨_, e.symm⟩
+        simp only [hne, ne_eq, not_false_eq_true, hsuf, and_self, if_true]
+        have ht : (pathOf p).take ((pathOf p).length - (pathOf rest).length) = '/' :: joinWith '/' (vt.map quoteSegment) := by
+          rw [e]
+          apply List.take_left'
+          simp
+          omega
+        rw [ht, findResource_abs root p vt hadm]
+        have hwv : Walkable root vt = true := walkable_prefix root vt rest (by rw [hr]; exact hw)
+        simp [hwv]
+    · simp [hin]
 
 end Pyr.ResUrl
